@@ -96,6 +96,28 @@ def check_pad(ctx, repo, rule):
     return arr, lp
 
 
+_DTYPE_KEEPING = ('copy', 'sort', 'ravel', 'flatten', 'compress', 'take', 'unique', 'squeeze', 'reshape', 'extract')
+
+
+def _dtype_preserving_root(v):
+    """Name at the root of a chain of subscripts and dtype-keeping calls (x[w], x[w].copy(), np.sort(x), np.compress(w, x)), else None."""
+    while True:
+        if isinstance(v, ast.Subscript):
+            v = v.value
+        elif isinstance(v, ast.Call) and call_name(v) in _DTYPE_KEEPING and not v.keywords:
+            if isinstance(v.func, ast.Attribute) and not (isinstance(v.func.value, ast.Name) and v.func.value.id in ('np', 'numpy')):
+                v = v.func.value
+            else:
+                cands = [a for a in v.args if isinstance(a, (ast.Name, ast.Subscript, ast.Call))]
+                if not cands:
+                    return None
+                v = cands[-1] if call_name(v) in ('compress', 'extract') else cands[0]
+        elif isinstance(v, ast.Name):
+            return v.id
+        else:
+            return None
+
+
 def check_cover(ctx, repo, rule):
     f = repo.func(BSPLINE, 'bspline.__init__')
     fa = FA(f)
@@ -149,6 +171,20 @@ def check_cover(ctx, repo, rule):
                   msg='bspline.__init__ writes the coverage repair `%s` into the caller\'s own `%s` array: integer breakpoints truncate the repair (and the padding '
                       'knots), so the knot vector does not cover the data, and the caller\'s array is modified' % (src(st), nm.id),
                   construct='repair written into the bkpt argument')
+    # the same for every other way of specifying breakpoints: a definition of the repaired array that is merely a selection / copy /
+    # sort of a caller-supplied array (`placed[w]`) keeps that array's dtype - integer positions truncate the repair and the padding
+    for n, st, arr, idx, val, strict in reps[:1]:
+        nm = st.targets[0].value
+        for d, v in fa.defs(nm):
+            if v is None or isinstance(d, ast.arg):
+                continue
+            root = _dtype_preserving_root(v)
+            bad_root = root is not None and root in f.params and root != nm.id
+            ctx.check(rule, not bad_root, f, d if hasattr(d, 'lineno') else st,
+                      'breakpoints defined by `%s` are a floating array of the constructor\'s own before the coverage repair' % src(v)[:60],
+                      msg='bspline.__init__ takes its breakpoints as `%s`, which keeps the dtype of the caller\'s `%s`: integer positions truncate the '
+                          'coverage repair `%s` (and the padding knots), so the knot vector does not cover the data' % (src(v)[:60], root, src(st)),
+                      construct='repair written into a selection of the %s argument' % root)
     # the padding (and the spacing) must read the repaired array
     ctx.need(len(arrs) == 1, 'bspline.__init__: the two repairs modify different arrays')
     B = arrs.pop()
